@@ -204,6 +204,9 @@ func (o *functionOperator) Next(ctx context.Context) ([]model.StepVector, error)
 			continue
 		}
 
+		// Samples for which the function has no result (e.g. clamp with max < min)
+		// are dropped from the step vector.
+		numValid := 0
 		for i := range vector.Samples {
 			o.pointBuf[0].V = vector.Samples[i]
 			// Call function by separately passing major input and scalars.
@@ -213,9 +216,16 @@ func (o *functionOperator) Next(ctx context.Context) ([]model.StepVector, error)
 				StepTime:     vector.T,
 				ScalarPoints: o.scalarPoints[batchIndex],
 			})
+			if result.Point == InvalidSample.Point {
+				continue
+			}
 
-			vector.Samples[i] = result.V
+			vector.Samples[numValid] = result.V
+			vector.SampleIDs[numValid] = vector.SampleIDs[i]
+			numValid++
 		}
+		vectors[batchIndex].Samples = vector.Samples[:numValid]
+		vectors[batchIndex].SampleIDs = vector.SampleIDs[:numValid]
 	}
 
 	return vectors, nil
